@@ -289,7 +289,7 @@ ITEMS = {
 '''),
 }
 # the None placeholder above is filled below (kept separate for readability)
-ITEMS['leaf_insert']['proofs'][2] = ('after:re:self\\.entries\\.insert\\(idx, \\(key, vec!\\[row_id\\]\\)\\);', '''proof {
+ITEMS['leaf_insert']['proofs'][2] = ('after:re:self\\.entries\\.insert\\(idx, [^;]*\\);', '''proof {
     let o = old(self).entries@; let n = self.entries@;
     assert(n.len() == o.len() + 1 && n[idx as int].0 == key && n[idx as int].1@ == seq![row_id]);
     assert forall|i: int| 0 <= i < n.len() implies n[i] == (if i < idx { o[i] } else if i == idx { n[idx as int] } else { o[i - 1] }) by {}
